@@ -319,7 +319,7 @@ def _check_object_from_file(query, filepath, allow_custom, version, encoding):
             "to JSON or was not valid STIX JSON".format(filepath),
         )
 
-    stix_obj = parse(stix_json, allow_custom, version)
+    stix_obj = parse(stix_json, allow_custom=allow_custom, version=version)
 
     if stix_obj["type"] == "bundle":
         stix_obj = stix_obj["objects"][0]
